@@ -2,7 +2,7 @@
 Line-protocol driver: one JSON request per input line, one JSON response per output line.
 The driver is a pure function of each line.
 -/
-import Pygom.Ops
+import Pygom.Dispatch
 
 open Lean (Json)
 open Pygom
